@@ -67,6 +67,9 @@ pub enum Op {
 #[derive(Serialize, Deserialize, Clone, Debug, PartialEq)]
 pub struct Case {
     pub entropy: u64,
+    /// every operation is its own top-level run on the context the previous run returned
+    #[serde(default)]
+    pub separate_runs: bool,
     pub ops: Vec<Op>,
     /// (operation index, k): the k-th nested invocation inside that operation answers Error (F1 nested)
     pub inject: Vec<(usize, u32)>,
@@ -333,6 +336,10 @@ fn idx(i: &str) -> Option<usize> {
 
 fn run_case(case: &Case) -> Verdict {
     let mut world = OpWorld::new_sdk();
+    if case.separate_runs {
+        world.run_mode = Some(false);
+        sim::with_core(|c| c.probe("one-run-per-operation-on-the-returned-context"));
+    }
     PLAN.with(|p| *p.borrow_mut() = Some(Plan { inject: case.inject.clone(), current_op: usize::MAX, nested: 0, fired_in_current: false }));
     sim::with_core(|c| {
         c.pre_hook = Some(nested_fault);
@@ -972,7 +979,9 @@ fn gen_case(rng: &mut Rng) -> Case {
     } else {
         vec![]
     };
-    Case { entropy: rng.next_u64(), ops, inject }
+    // (no inner-fault plan in that mode: the nesting depths differ)
+    let separate_runs = rng.chance(1, 10);
+    Case { entropy: rng.next_u64(), separate_runs, ops, inject: if separate_runs { vec![] } else { inject } }
 }
 
 pub struct C12;
